@@ -180,7 +180,7 @@ def r4(ctx):
 def r5(ctx):
     c = ctx.crate
     fn = ctx.fn("network::Network::_forward")
-    from .. import e5
+    from .. import e6 as e5
     E = e5.Exec(c, fn)
     paths = [p for p in E.run_fn() if p.exit is None or p.exit[0] == "return"]
     if len(paths) != 1:
